@@ -55,6 +55,16 @@ RCP<const Number> number(double x)
     return real_double(x);
 }
 
+// mpz_set_d traps (SIGFPE) on an infinite or NaN argument
+static void set_integer_from_double(integer_class &i, double d)
+{
+    if (not std::isfinite(d)) {
+        throw DomainError(
+            "floor/ceiling/truncate of a non-finite floating point number");
+    }
+    mp_set_d(i, d);
+}
+
 //! Evaluate functions with double precision
 template <class T>
 class EvaluateDouble : public Evaluate
@@ -252,21 +262,21 @@ class EvaluateRealDouble : public EvaluateDouble<RealDouble>
     {
         SYMENGINE_ASSERT(is_a<RealDouble>(x))
         integer_class i;
-        mp_set_d(i, std::floor(down_cast<const RealDouble &>(x).i));
+        set_integer_from_double(i, std::floor(down_cast<const RealDouble &>(x).i));
         return integer(std::move(i));
     }
     RCP<const Basic> ceiling(const Basic &x) const override
     {
         SYMENGINE_ASSERT(is_a<RealDouble>(x))
         integer_class i;
-        mp_set_d(i, std::ceil(down_cast<const RealDouble &>(x).i));
+        set_integer_from_double(i, std::ceil(down_cast<const RealDouble &>(x).i));
         return integer(std::move(i));
     }
     RCP<const Basic> truncate(const Basic &x) const override
     {
         SYMENGINE_ASSERT(is_a<RealDouble>(x))
         integer_class i;
-        mp_set_d(i, std::trunc(down_cast<const RealDouble &>(x).i));
+        set_integer_from_double(i, std::trunc(down_cast<const RealDouble &>(x).i));
         return integer(std::move(i));
     }
     RCP<const Basic> erf(const Basic &x) const override
@@ -337,8 +347,8 @@ class EvaluateComplexDouble : public EvaluateDouble<ComplexDouble>
     {
         SYMENGINE_ASSERT(is_a<ComplexDouble>(x))
         integer_class re, im;
-        mp_set_d(re, std::floor(down_cast<const ComplexDouble &>(x).i.real()));
-        mp_set_d(im, std::floor(down_cast<const ComplexDouble &>(x).i.imag()));
+        set_integer_from_double(re, std::floor(down_cast<const ComplexDouble &>(x).i.real()));
+        set_integer_from_double(im, std::floor(down_cast<const ComplexDouble &>(x).i.imag()));
         return Complex::from_two_nums(*integer(std::move(re)),
                                       *integer(std::move(im)));
     }
@@ -346,8 +356,8 @@ class EvaluateComplexDouble : public EvaluateDouble<ComplexDouble>
     {
         SYMENGINE_ASSERT(is_a<ComplexDouble>(x))
         integer_class re, im;
-        mp_set_d(re, std::ceil(down_cast<const ComplexDouble &>(x).i.real()));
-        mp_set_d(im, std::ceil(down_cast<const ComplexDouble &>(x).i.imag()));
+        set_integer_from_double(re, std::ceil(down_cast<const ComplexDouble &>(x).i.real()));
+        set_integer_from_double(im, std::ceil(down_cast<const ComplexDouble &>(x).i.imag()));
         return Complex::from_two_nums(*integer(std::move(re)),
                                       *integer(std::move(im)));
     }
@@ -355,8 +365,8 @@ class EvaluateComplexDouble : public EvaluateDouble<ComplexDouble>
     {
         SYMENGINE_ASSERT(is_a<ComplexDouble>(x))
         integer_class re, im;
-        mp_set_d(re, std::trunc(down_cast<const ComplexDouble &>(x).i.real()));
-        mp_set_d(im, std::trunc(down_cast<const ComplexDouble &>(x).i.imag()));
+        set_integer_from_double(re, std::trunc(down_cast<const ComplexDouble &>(x).i.real()));
+        set_integer_from_double(im, std::trunc(down_cast<const ComplexDouble &>(x).i.imag()));
         return Complex::from_two_nums(*integer(std::move(re)),
                                       *integer(std::move(im)));
     }
